@@ -36,7 +36,8 @@ class _Rec:
         fr = sys._getframe(1)
         self.frames.append(fr)
         loc = fr.f_locals
-        self.entry[id(fr)] = {n: loc[n] for n in names if n in loc}
+        # (a shallow snapshot of plain containers: a program may change them in place after the call)
+        self.entry[id(fr)] = {n: (type(loc[n])(loc[n]) if type(loc[n]) in (list, dict, set) else loc[n]) for n in names if n in loc}
         q = fr.f_code.co_qualname
         for n in names:
             if n in loc:
@@ -140,6 +141,10 @@ class ProgGen:
         self.w(f"{p}def {name}({sig}):")
         allnames = ([receiver] if receiver else []) + names
         self.w(f"{p}    R.enter({allnames!r})")
+        if names and self.r.random() < 0.3:
+            # rebind a parameter, then call builtins (c_call / c_return events inside this frame)
+            self.w(f"{p}    {self.r.choice(names)} = {self.v()}")
+            self.w(f"{p}    _n = len(V) + isinstance(V, list) + len(sorted([2, 1]))")
         for c in body_calls:
             self.w(f"{p}    try:")
             self.w(f"{p}        {c}")
@@ -164,6 +169,8 @@ class ProgGen:
         for i in range(n):
             if names and self.r.random() < 0.5:      # rebind a parameter between yields (C18)
                 self.w(f"{p2}    {self.r.choice(names)} = {self.v()}")
+                if self.r.random() < 0.5:            # ... and call a builtin (a c_call / c_return event pair in this frame)
+                    self.w(f"{p2}    _n = len(V) + isinstance(V, list)")
             if self.r.random() < 0.2:
                 self.w(f"{p2}    R.act('yield', None)")
                 self.w(f"{p2}    yield")
@@ -236,6 +243,29 @@ class ProgGen:
             self.w("R.reg(rec)")
             self.plain.append(("rec", ["%d, {0}" % r.choice([1, 2, 3])]))
             self.w("")
+        # a closure returned by its factory: the harness keeps the only reference in a local of the BOTTOM frame of a new
+        # thread's stack and calls it from there (harness/tracer_run.py), so the lookup has to reach the outermost frame
+        if not self.safe_generators and r.random() < 0.35:
+            self.w("def make_held():")
+            self.w("    R.enter([])")
+            self.w("    def held(a, b=None):")
+            self.w("        R.enter(['a', 'b'])")
+            self.w(f"        _v = {self.v()}")
+            self.w("        R.act('return', _v)")
+            self.w("        return _v")
+            self.w("    R.reg(held)")
+            self.w("    R.act('return', held)")
+            self.w("    return held")
+            self.w("R.reg(make_held)")
+            self.w("")
+        # a function that is handed the same container several times, changed in place in between (see main)
+        if not self.safe_generators and r.random() < 0.4:
+            self.has_buf = True
+            self.w("def takes_buf(a, b=None):")
+            self.w("    R.enter(['a', 'b'])")
+            self.w("    R.act('return', None)")
+            self.w("R.reg(takes_buf)")
+            self.w("")
         # decorator with functools.wraps
         if r.random() < 0.6:
             self.w("def deco(fn):")
@@ -269,6 +299,23 @@ class ProgGen:
             self.w("    return wrapper2")
             calls = self.def_plain("plainwrapped", deco="@deco2")
             self.plain.append(("plainwrapped", calls))
+            self.w("")
+        # a class-based decorator (functools.update_wrapper on an instance): the global name is bound to an object that is
+        # not a function; the original is reachable through its __wrapped__
+        if not self.safe_generators and r.random() < 0.3:
+            self.w("class CDeco:")
+            self.w("    def __init__(self, fn):")
+            self.w("        functools.update_wrapper(self, fn)")
+            self.w("        self.fn = fn")
+            self.w("    def __call__(self, *args, **kwargs):")
+            self.w("        R.enter(['self', 'args', 'kwargs'])")
+            self.w("        _v = self.fn(*args, **kwargs)")
+            self.w("        R.act('return', _v)")
+            self.w("        return _v")
+            self.w("    R.reg(__call__)")
+            calls = self.def_plain("cdecorated", deco="@CDeco")
+            self.w("R.reg(cdecorated)")
+            self.plain.append(("cdecorated", calls))
             self.w("")
         # closure
         if r.random() < 0.6:
@@ -334,6 +381,16 @@ class ProgGen:
             self.w("")
         # classes
         if r.random() < 0.8:
+            if r.random() < 0.4:
+                # another class, EARLIER in the module, with a static and a class method of the same names as Base's:
+                # the scan over the module's classes meets it first and must not take its functions for Base's
+                self.w("class Early:")
+                e3 = self.def_plain("sm", ind=4, deco="@staticmethod")
+                self.w("    R.reg(sm.__func__ if hasattr(sm, '__func__') else sm)")
+                e2 = self.def_plain("cm", ind=4, receiver="cls", deco="@classmethod")
+                self.w("    R.reg(cm.__func__)")
+                self.w("")
+                self.plain += [("Early.sm", e3), ("Early.cm", e2)]
             # sometimes with a metaclass other than `type` (abc.ABC-style): still a class to every lookup
             self.w("class Base(metaclass=abc.ABCMeta):" if r.random() < 0.4 else "class Base:")
             c1 = self.def_plain("m", ind=4, receiver="self")
@@ -478,6 +535,18 @@ class ProgGen:
             self.w("            list(_g)")
             self.w("        except Boom:")
             self.w("            pass")
+        if getattr(self, "has_buf", False):
+            # the same container passed again after it was changed IN PLACE (same identity, same length)
+            self.w("    _buf = [V[1]]")
+            self.w("    takes_buf(_buf)")
+            self.w("    _buf[0] = V[2]")
+            self.w("    takes_buf(_buf)")
+            self.w("    _buf[0] = V[3]")
+            self.w("    takes_buf(_buf, _buf)")
+            self.w("    _dbuf = {1: V[1]}")
+            self.w("    takes_buf(_dbuf)")
+            self.w("    _dbuf[1] = V[4]")
+            self.w("    takes_buf(_dbuf)")
         if self.many_live:
             self.w(f"    _many = [sg(V[i % {self.nvals}], i) for i in range({self.many_live})]")
             self.w("    for _g in _many:")
